@@ -30,6 +30,8 @@ func init() {
 				Doc: "An entry is dropped by a removal only when its whole key equals the argument's (Method and Path for RemoveRoute, root path for Remove); every other entry is appended to the new list before the scan moves on. A weakened condition (|| for &&, a constant) removes routes nobody asked to remove."},
 			{ID: "C11.h", Template: "T-ORDER", Required: true, Run: ruleC11h,
 				Doc: "The registration helper registers on the mux on every path on which no earlier registration was found, and reports 'registered on root' only after it registered \"/\": otherwise a service is reachable through Dispatch but answers 404 through ServeHTTP, or all later services are never registered."},
+			{ID: "C11.n", Template: "T-GUARD", Required: false, Run: ruleRootRegisteredOnce,
+				Doc: "The root pattern is registered at most once per mux: the function that may register \"/\" and reports it is called only where the flag that receives its result is false - in Add (the Container's field) and in the rebuild loop of Remove (its local). Without the guard a second root-prefixed service registers \"/\" again and http.ServeMux panics, in Remove in the middle of the rebuild."},
 			{ID: "C11.m", Template: "T-EFFECT", Required: false, Run: ruleReplayDoesNotRecord,
 				Doc: "Replaying is not recording: a loop over a list of records kept on the Container (what Handle registered) calls nothing that appends to that same list. A shared register-and-remember helper used by the replay doubles the list on every Remove; the next replay registers a pattern twice and the mux panics."},
 			{ID: "C11.l", Template: "T-SIBLING", Required: true, Run: ruleDerivedRegistrationState,
